@@ -169,3 +169,22 @@ Fixpoint innermost (chain : list attrs) (a : Z) : option V :=
   | c :: r => match innermost r a with Some v => Some v | None => c a end
   end.
 End Defaults.
+
+(* ------------------------------------------------------------------------------------------ *)
+(* nested attachment (discrete): mjCModel::FindSpec (the overload taking a compiler pointer) in user_model.cc.  A model owns one compiler (identified here
+   by a number) and the list of specs attached to it, recursively; the element of an attached subtree keeps a pointer to the compiler
+   of the spec it was written in, and FindSpec searches the attachment tree for the spec that OWNS that compiler: its own compiler
+   first (compiler2spec_), then, recursively, the attached specs, returning what the recursive call found. *)
+Inductive spectree := SNode (compiler : Z) (attached : list spectree).
+Fixpoint findSpec (t : spectree) (c : Z) : option Z :=
+  match t with
+  | SNode id ch =>
+      if (id =? c)%Z then Some id
+      else (fix go (l : list spectree) : option Z :=
+              match l with
+              | [] => None
+              | s :: r => match findSpec s c with Some x => Some x | None => go r end
+              end) ch
+  end.
+Fixpoint compilers (t : spectree) : list Z :=
+  match t with SNode id ch => id :: flat_map compilers ch end.
